@@ -76,7 +76,7 @@ func runC08Chain(c c08Chain) error {
 			}
 		}
 		var eerr error
-		if perr := vh.Try(func() { eerr = encode([]string{cur}, to, next) }); perr != nil {
+		if perr := vh.Try(func() { eerr = runEncode([]string{cur}, to, next) }); perr != nil {
 			return fmt.Errorf("encode step %d (%s -> %s) panics: %v", i+1, last, to, perr)
 		}
 		if eerr != nil {
@@ -160,7 +160,7 @@ func runC08DetectCmd(c c08Det) error {
 	}
 	out := filepath.Join(dir, "out")
 	var eerr error
-	if perr := vh.Try(func() { eerr = encode([]string{in}, c.To, out) }); perr != nil {
+	if perr := vh.Try(func() { eerr = runEncode([]string{in}, c.To, out) }); perr != nil {
 		return fmt.Errorf("encode panics on a %s input: %v", c.Kind, perr)
 	}
 	if c.Kind == "garbage" {
